@@ -2,6 +2,7 @@ import BSModel.Model.Copy
 import BSModel.Proofs.Copy
 import BSModel.Proofs.CopyEq
 import BSModel.Proofs.CopyEdit
+import BSModel.Proofs.CopyCanon
 import BSModel.Gen.Copy
 /-! C12 — copies are equal, detached and independent; equality is structural; a copy hashes like its original.
 
@@ -16,7 +17,7 @@ open BS BS.Copy
 private def st0 : Settings := ⟨none, some 900, some 901, some 902, false, some 1, some 0, none, none⟩
 private def dB : TagData := ⟨ofS "b", none, none, [], { st0 with canBeEmpty := some true }, some 7, 0, 0⟩
 private def dP : TagData :=
-  ⟨ofS "p", some (ofS "x"), none, [(ofS "class", .list 2 0 [ofS "a", ofS "b"]), (ofS "id", .str (ofS "i"))], st0, some 7, 0, 5⟩
+  ⟨ofS "p", some (ofS "x"), none, [(ofS "class", none, .list 2 0 [ofS "a", ofS "b"]), (ofS "id", none, .str 0 (ofS "i"))], st0, some 7, 0, 5⟩
 /-- `<x:p class="a b" id="i">t<b/><!--c--></x:p>` with object ids 1..5 (the class list is object 2) -/
 private def exP : Node := .tag 1 dP [.str 3 0 (ofS "t"), .tag 4 dB [], .str 5 5 (ofS "c")]
 
@@ -54,34 +55,116 @@ example : run ⟨0, [⟨0, dB, []⟩]⟩ [.stop] = none := by decide +kernel
     class and text, every setting (`can_be_empty_element`, `cdata_list_attributes`, `preserve_whitespace_tags`,
     `interesting_string_types`, `hidden`, `sourceline`, `sourcepos`, `_namespaces`, `_is_xml`) and the nesting. Hence any
     function of the shape — `decode` under any formatter, `prettify`, `get_text` — gives the same result on both. -/
-theorem copy_same_shape (inh : Option Bool) (next : Nat) (t c : Node) (n' : Nat)
+theorem copy_same_shape (inh : Option Bool) (next : Nat) (t c : Node) (n' : Nat) (hs : SettledN t)
     (h : copyImpl inh next t = some (c, n')) : shape none c = shape inh t ∧ shape inh c = shape inh t := by
   obtain ⟨rfl, rfl⟩ := copyImpl_some h
-  exact ⟨shape_copySpec t inh none next (fun _ => rfl), shape_copySpec t inh inh next (fun h => h)⟩
+  exact ⟨shape_copySpec t inh none next hs (fun _ => rfl), shape_copySpec t inh inh next hs (fun h => h)⟩
 
 /-- for a `BeautifulSoup`, provided the object still has the data its builder gives a new one (`fresh`): the root data of
     the copy comes from the builder, not from the original -/
 theorem copy_soup_same_shape (fresh : TagData) (inh : Option Bool) (next i : Nat) (d : TagData) (ks : List Node) (c : Node) (n' : Nat)
     (hpristine : shapeData fresh (isXml inh fresh) = shapeData d (isXml inh d)) (hx : isXml inh fresh = isXml inh d)
-    (h : copySoupImpl fresh inh next (.tag i d ks) = some (c, n')) : shape inh c = shape inh (.tag i d ks) := by
+    (hs : SettledL ks) (h : copySoupImpl fresh inh next (.tag i d ks) = some (c, n')) : shape inh c = shape inh (.tag i d ks) := by
   rw [copy_soup_refines] at h
   have := Option.some.inj h
   have hc : c = .tag next fresh (copySpecL (isXml inh d) (next + 1) ks).1 := (congrArg Prod.fst this).symm
   subst hc
   simp only [shape]
-  rw [hpristine, hx, shapeL_copySpecL]
+  rw [hpristine, hx, shapeL_copySpecL _ _ _ hs]
 
 /-- the statement has content: a tree that differs in one string class has another shape -/
 example : shape none exP ≠ shape none (.tag 1 dP [.str 3 1 (ofS "t"), .tag 4 dB [], .str 5 5 (ofS "c")]) := by
   simp [shape, shapeL, exP]
 
-/-- what is *not* kept (recorded quirk, nothing in `==`/`hash`/`decode` reads it): `parser_class` becomes `None`, the
-    `attrs` dict is an `HTMLAttributeDict` (`XMLAttributeDict` when `_is_xml`), `attribute_value_list_class` is the stock
-    one, and `known_xml` holds the resolved `_is_xml` -/
+/-- what is *not* kept (recorded quirk, nothing in `==`/`hash`/`decode` reads it): `parser_class` becomes `None`,
+    `attribute_value_list_class` is the stock one, and `known_xml` holds the resolved `_is_xml`; the class of the `attrs`
+    dict **is** kept (since the repair of `copy_self`) -/
 example (next : Nat) (d : TagData) (xml : Option Bool) :
     (copySelf next d xml).2.1.parserClass = none ∧ (copySelf next d xml).2.1.avlCls = 0 ∧
-    (copySelf next d xml).2.1.dictCls = (if xml == some true then 2 else 1) ∧
+    (copySelf next d xml).2.1.dictCls = d.dictCls ∧
     (copySelf next d xml).2.1.st.knownXml = xml := by simp [copySelf]
+
+/-! ### attribute values that are not strings: the repaired `copy_self`, and what bs4 4.13.0 did -/
+
+/-- the hypothesis `SettledN` of the theorems above is what the public API guarantees: a plain `AttributeDict` (what
+    html.parser gives every parsed tag) stores anything unchanged … -/
+theorem settled_of_plain_dict (cls : Nat) (l : Attrs) (h1 : cls ≠ 1) (h2 : cls ≠ 2) : Settled cls l :=
+  settled_plain cls l h1 h2
+
+/-- … whatever the class, strings (of any class) and lists are stored unchanged … -/
+theorem settled_of_str_list (cls : Nat) (l : Attrs) (h : ∀ e ∈ l, (∃ c s, e.2.2 = .str c s) ∨ (∃ i c xs, e.2.2 = .list i c xs)) :
+    Settled cls l := by
+  intro e he
+  rcases h e he with ⟨c, s, hv⟩ | ⟨i, c, xs, hv⟩
+  · rw [hv]; exact coerce_str ..
+  · rw [hv]; exact coerce_list ..
+
+/-- … and what `d[key] = value` stored is stored unchanged when set again (`__setitem__` is idempotent) — except for the
+    one value an `HTMLAttributeDict` produces itself and then refuses: `True` under a `NamespacedAttribute` key whose
+    `name` is `None` becomes `None` -/
+theorem setitem_idempotent (cls : Nat) (k : PStr) (m : KMeta) (v v' : AVal) (h : coerce cls k m v = some v')
+    (hne : ¬ (cls = 1 ∧ v' = .none)) : coerce cls k m v' = some v' := by
+  by_cases hc : cls = 1
+  · subst hc
+    have hne' : v' ≠ .none := fun e => hne ⟨rfl, e⟩
+    have h' : coerceHtml k m v = some v' := by simpa [coerce] using h
+    have goal : coerceHtml k m v' = some v' := by
+      cases v with
+      | bool b =>
+        cases b with
+        | false => simp [coerceHtml] at h'
+        | true =>
+          simp only [coerceHtml, Option.some.injEq] at h'
+          subst h'
+          cases m with
+          | none => rfl
+          | some nk =>
+            obtain ⟨p, nm, ns⟩ := nk
+            cases nm with
+            | none => exact absurd rfl hne'
+            | some x => rfl
+      | none => simp [coerceHtml] at h'
+      | int n => simp only [coerceHtml, Option.some.injEq] at h'; subst h'; rfl
+      | str c s => simp only [coerceHtml, Option.some.injEq] at h'; subst h'; rfl
+      | list i c xs => simp only [coerceHtml, Option.some.injEq] at h'; subst h'; rfl
+    simpa [coerce] using goal
+  · by_cases hc2 : cls = 2
+    · subst hc2
+      have h' : coerceXml v = some v' := by simpa [coerce] using h
+      have goal : coerceXml v' = some v' := by
+        cases v <;> simp only [coerceXml, Option.some.injEq] at h' <;> subst h' <;> rfl
+      simpa [coerce] using goal
+    · simp only [coerce, hc, hc2, ↓reduceIte, Option.some.injEq] at h ⊢
+
+/-- the exception is real -/
+example : coerce 1 (ofS "xml") (some ⟨some (ofS "xml"), none, none⟩) (.bool true) = some .none ∧
+    coerce 1 (ofS "xml") (some ⟨some (ofS "xml"), none, none⟩) .none = none := by decide +kernel
+
+private def dA (cls : Nat) (v : AVal) : TagData :=
+  ⟨ofS "a", none, none, [(ofS "id", none, .str 0 (ofS "1")), (ofS "k", none, v)], st0, some 0, cls, 0⟩
+
+/-- **What bs4 4.13.0 did** (defect `C12-copy-coerces-nonstring-attr`, repaired): `copy_self` kept the
+    `HTMLAttributeDict` made by `Tag.__init__`, so the values of a parsed tag's plain dict were processed on the way:
+    for `soup.a["k"] = 2` the copy holds `"2"` and is **not equal** to its original; for `True` it holds `"k"`; for
+    `None` and `False` the attribute is gone (and `<a k>` renders as `<a>`). -/
+theorem old_copy_self_coerces :
+    dictEq (dA 0 (.int 2)).attrs (copySelfOld 10 (dA 0 (.int 2)) (some false)).2.1.attrs = false ∧
+    (copySelfOld 10 (dA 0 (.int 2)) (some false)).2.1.attrs = (dA 1 (.str 0 (ofS "2"))).attrs ∧
+    (copySelfOld 10 (dA 0 (.bool true)) (some false)).2.1.attrs = (dA 1 (.str 0 (ofS "k"))).attrs ∧
+    (copySelfOld 10 (dA 0 .none) (some false)).2.1.attrs = [(ofS "id", none, .str 0 (ofS "1"))] ∧
+    (copySelfOld 10 (dA 0 (.bool false)) (some false)).2.1.attrs = [(ofS "id", none, .str 0 (ofS "1"))] := by
+  decide +kernel
+
+/-- the repaired `copy_self` keeps every value (and the dict class) of such a tag -/
+theorem new_copy_self_keeps (v : AVal) (hv : v.isList = false) (next : Nat) (xml : Option Bool) :
+    (copySelf next (dA 0 v) xml).2.1.attrs = (dA 0 v).attrs ∧ (copySelf next (dA 0 v) xml).2.1.dictCls = 0 := by
+  cases v <;> simp_all [copySelf, copyAttrs, dA, coerce, pushEntry, AVal.isList]
+
+/-- old and new agree whenever the original's dict already is of the class `Tag.__init__` would choose (every tag made
+    without a builder): the repair changes nothing there -/
+theorem old_new_agree (next : Nat) (d : TagData) (xml : Option Bool)
+    (h : d.dictCls = if xml == some true then 2 else 1) : copySelfOld next d xml = copySelf next d xml := by
+  simp only [copySelfOld, copySelf, h]
 
 /-! ### a copy is made of new objects only -/
 
@@ -156,7 +239,7 @@ theorem copy_independent (inh : Option Bool) (next : Nat) (t c : Node) (n' : Nat
 /-- the lemma has content: a clone that kept the original's value list (a *shallow* copy of `attrs`) is changed by
     `original["class"].append("z")` … -/
 example : (match applyEdit (.listAppend 2 (ofS "z")) (.tag 10 dP []) with | .tag _ d _ => d.attrs | _ => []) =
-    [(ofS "class", .list 2 0 [ofS "a", ofS "b", ofS "z"]), (ofS "id", .str (ofS "i"))] := by decide +kernel
+    [(ofS "class", none, .list 2 0 [ofS "a", ofS "b", ofS "z"]), (ofS "id", none, .str 0 (ofS "i"))] := by decide +kernel
 /-- … the real copy is not -/
 example : ∀ c n', copyImpl none 10 exP = some (c, n') → applyEdit (.listAppend 2 (ofS "z")) c = c := by
   intro c n' h
@@ -264,7 +347,7 @@ theorem eq_never_confuses_ancestor_and_descendant (a x : Node) (ha : DictOK a) (
 example : Below exP (.tag 4 dB []) := .kid (by simp)
 
 /-- **Attribute order is irrelevant**: permuting the attributes of a tag gives an equal tag -/
-theorem attr_order_irrelevant (i j : Nat) (d : TagData) (attrs' : List (PStr × AVal)) (ks : List Node)
+theorem attr_order_irrelevant (i j : Nat) (d : TagData) (attrs' : Attrs) (ks : List Node)
     (hd : DictOK (.tag i d ks)) (hp : d.attrs.Perm attrs') :
     eqImpl (.tag i d ks) (.tag j { d with attrs := attrs' } ks) = true := by
   have hd' : DictOK (.tag j { d with attrs := attrs' } ks) := by
@@ -275,43 +358,46 @@ theorem attr_order_irrelevant (i j : Nat) (d : TagData) (attrs' : List (PStr × 
   rw [attrMap_perm hp (by simpa [DictOK] using hd.1)]
 
 private def exQ : Node :=
-  .tag 21 { dP with attrs := [(ofS "id", .str (ofS "i")), (ofS "class", .list 22 9 [ofS "a", ofS "b"])], pfx := none }
+  .tag 21 { dP with attrs := [(ofS "id", some ⟨none, some (ofS "id"), none⟩, .str 2 (ofS "i")), (ofS "class", none, .list 22 9 [ofS "a", ofS "b"])], pfx := none }
     [.str 23 5 (ofS "t"), .tag 24 { dB with st := st0 } [], .str 25 0 (ofS "c")]
 
-/-- other order, other list class, other prefix, other string classes, other settings: still `==` -/
+/-- other order, other list class, other key and value classes, other prefix, other string classes, other settings: still `==` -/
 example : eqImpl exP exQ = true ∧ eqImpl exQ exP = true := by decide +kernel
 example : DictOK exP ∧ DictOK exQ := by
   simp only [DictOK, DictOKL, exP, exQ, dP, dB]
   decide +kernel
 /-- one attribute value changed / one child missing / a string against a tag: not `==` -/
-example : eqImpl exP (.tag 1 { dP with attrs := [(ofS "class", .list 2 0 [ofS "a"]), (ofS "id", .str (ofS "i"))] }
+example : eqImpl exP (.tag 1 { dP with attrs := [(ofS "class", none, .list 2 0 [ofS "a"]), (ofS "id", none, .str 0 (ofS "i"))] }
     [.str 3 0 (ofS "t"), .tag 4 dB [], .str 5 5 (ofS "c")]) = false := by decide +kernel
 example : eqImpl exP (.tag 1 dP [.str 3 0 (ofS "t"), .tag 4 dB []]) = false := by decide +kernel
 example : eqImpl (.str 3 0 (ofS "b")) (.tag 4 dB []) = false := by decide +kernel
 /-- a list value never equals the string it renders as -/
-example : valEq (.list 2 0 [ofS "a"]) (.str (ofS "a")) = false := by decide +kernel
+example : valEq (.list 2 0 [ofS "a"]) (.str 0 (ofS "a")) = false := by decide +kernel
+/-- numbers compare as numbers (`True == 1`), never with their text -/
+example : valEq (.bool true) (.int 1) = true ∧ valEq (.int 2) (.str 0 (ofS "2")) = false ∧ valEq .none .none = true := by
+  decide +kernel
 
 /-! ### a copy equals its original and hashes like it -/
 
 /-- **A copy compares equal to its original** (`original == copy` and `copy == original`) -/
-theorem copy_eq (inh : Option Bool) (next : Nat) (t c : Node) (n' : Nat) (hd : DictOK t)
+theorem copy_eq (inh : Option Bool) (next : Nat) (t c : Node) (n' : Nat) (hd : DictOK t) (hs : SettledN t)
     (h : copyImpl inh next t = some (c, n')) : eqImpl t c = true ∧ eqImpl c t = true := by
   obtain ⟨rfl, rfl⟩ := copyImpl_some h
-  have hd' := dictOK_copySpec t inh next hd
-  have hc := canon_copySpec t inh next
+  have hd' := dictOK_copySpec t inh next hs hd
+  have hc := canon_copySpec t inh next hs
   exact ⟨(eq_iff_structural _ _ hd hd').mpr hc.symm, (eq_iff_structural _ _ hd' hd).mpr hc⟩
 
 /-- and to whatever the original compares equal to -/
-theorem copy_eq_class (inh : Option Bool) (next : Nat) (t c u : Node) (n' : Nat) (hd : DictOK t) (hu : DictOK u)
-    (h : copyImpl inh next t = some (c, n')) : eqImpl c u = eqImpl t u := by
+theorem copy_eq_class (inh : Option Bool) (next : Nat) (t c u : Node) (n' : Nat) (hd : DictOK t) (hs : SettledN t)
+    (hu : DictOK u) (h : copyImpl inh next t = some (c, n')) : eqImpl c u = eqImpl t u := by
   obtain ⟨rfl, rfl⟩ := copyImpl_some h
-  exact eq_depends_on_canon_only _ _ _ _ (dictOK_copySpec t inh next hd) hd hu hu (canon_copySpec t inh next) rfl
+  exact eq_depends_on_canon_only _ _ _ _ (dictOK_copySpec t inh next hs hd) hd hu hu (canon_copySpec t inh next hs) rfl
 
 /-- **A copy hashes like its original**: `hash(tag)` is `hash(tag.decode())`; for every renderer that reads the tree
     through its shape (no object identities; `known_xml` only through `_is_xml`) and every string hash -/
 theorem copy_hash (render : Shape → PStr) (hsh : PStr → Nat) (inh : Option Bool) (next : Nat) (t c : Node) (n' : Nat)
-    (h : copyImpl inh next t = some (c, n')) : hashImpl render hsh none c = hashImpl render hsh inh t := by
-  simp only [hashImpl, (copy_same_shape inh next t c n' h).1]
+    (hs : SettledN t) (h : copyImpl inh next t = some (c, n')) : hashImpl render hsh none c = hashImpl render hsh inh t := by
+  simp only [hashImpl, (copy_same_shape inh next t c n' hs h).1]
 
 /-- what does **not** hold (and the property does not claim): `==` looks at less than `decode` does, so equal tags may
     hash differently — here `<a><!--x--></a> == <a>x</a>` (strings compare by text, whatever their class) -/
@@ -325,8 +411,9 @@ theorem hash_is_not_a_function_of_eq :
 /-! ### the model's reading of `copy_self`, pinned to the live source -/
 
 /-- `Tag.copy_self` passes, for **every** parameter of `Tag.__init__` other than `parent`/`previous`, either `None`
-    (`parser`, `builder`) or the tag's own value — exactly the arguments `copySelf` models; and re-sets
-    `can_be_empty_element` and `hidden`. Generated from the running source with `inspect`/`ast`. -/
+    (`parser`, `builder`) or the tag's own value — exactly the arguments `copySelf` models; then rebuilds `attrs` in a dict
+    of the original's class (the repair) and re-sets `can_be_empty_element` and `hidden`. Generated from the running source
+    with `inspect`/`ast`; the whole tables are compared. -/
 theorem copy_self_source :
     BS.Gen.Copy.copySelfArgs =
       [(ofS "attrs", ofS "self.attrs"), (ofS "builder", ofS "None"),
@@ -337,7 +424,12 @@ theorem copy_self_source :
        (ofS "parser", ofS "None"), (ofS "prefix", ofS "self.prefix"),
        (ofS "preserve_whitespace_tags", ofS "self.preserve_whitespace_tags"),
        (ofS "sourceline", ofS "self.sourceline"), (ofS "sourcepos", ofS "self.sourcepos")] ∧
-    BS.Gen.Copy.copySelfSetattrs = [ofS "can_be_empty_element", ofS "hidden"] := by decide +kernel
+    BS.Gen.Copy.copySelfSetattrs = [ofS "can_be_empty_element", ofS "hidden"] ∧
+    BS.Gen.Copy.copySelfAfter =
+      [ofS "clone.attrs = self.attrs.__class__()",
+       ofS "for key, value in self.attrs.items():\n    if isinstance(value, list):\n        value = value.__class__(value)\n    clone.attrs[key] = value",
+       ofS "for attr in ('can_be_empty_element', 'hidden'):\n    setattr(clone, attr, getattr(self, attr))"] := by
+  decide +kernel
 
 /-- no parameter of `Tag.__init__` is forgotten by `copy_self` ("Any new arguments here need to be mirrored in
     Tag.copy_self", element.py:1638) -/
